@@ -9,7 +9,8 @@ ASSUMPTIONS = [
 def run(ctx):
     quick = ctx["tier"] == "quick"
     runs = [("seq", 250 if quick else 4000, 40, 30, []),
-            ("par", 250 if quick else 4000, 40, 31, [])]
+            ("par", 250 if quick else 4000, 40, 31, []),
+            ("all", 25 if quick else 600, 24, 32, [], "cli")]
     r = codec.run_art("C05", ctx, runs)
     violations, known = codec.verdict("C05", r)
     r.update({"violations": violations, "known": known})
